@@ -23,6 +23,7 @@ type PkgRules struct {
 	Pkg      string   // package directory relative to the repo root
 	SyncSwap bool     // R1
 	Time     bool     // R2: time.Now/Since/Sleep -> vtime
+	Timers   bool     // R2b: time.NewTimer -> vtime.NewTimer; selects on a lock channel and a timer may time out by scheduler choice
 	ChanLock []string // R3: selector/ident names of lock channels
 	Globals  []string // R4: package-level variables whose accesses become points
 	GoStmt   bool     // R5
@@ -154,6 +155,7 @@ func (f *fileInstr) stmt(s ast.Stmt) {
 		case *ast.SelectStmt:
 			var conds []string
 			hasDefault := false
+			timerExpr := ""
 			for _, cc := range v.Body.List {
 				c := cc.(*ast.CommClause)
 				if c.Comm == nil {
@@ -164,6 +166,11 @@ func (f *fileInstr) stmt(s ast.Stmt) {
 				case *ast.ExprStmt:
 					if ch := recvChan(cm.X); ch != nil && f.isLockChan(ch) {
 						conds = append(conds, fmt.Sprintf("len(%s) > 0", f.text(ch)))
+					} else if ch != nil && f.r.Timers {
+						// case <-T.C: a timer channel
+						if se, ok := ch.(*ast.SelectorExpr); ok && se.Sel.Name == "C" {
+							timerExpr = f.text(se.X)
+						}
 					}
 				case *ast.AssignStmt:
 					if len(cm.Rhs) == 1 {
@@ -181,6 +188,12 @@ func (f *fileInstr) stmt(s ast.Stmt) {
 			if len(conds) > 0 {
 				if hasDefault {
 					f.insert(s.Pos(), "vsched.Point(\"chan.try\"); ")
+				} else if timerExpr != "" {
+					// the wait may time out (scheduler choice, only while the lock is unavailable); if it does, the timer is
+					// fired and the select runs at once, without a scheduling point in between, so only the timer case is ready
+					f.insert(s.Pos(), fmt.Sprintf("if !vtime.MaybeTimeout(%s, func() bool { return %s }) { vsched.Await(\"chan.select\", func() bool { return %s }) }; ", timerExpr, strings.Join(conds, " || "), strings.Join(conds, " || ")))
+					f.need["vtime"] = true
+					f.sites["R2b.timeout-select"]++
 				} else {
 					f.insert(s.Pos(), fmt.Sprintf("vsched.Await(\"chan.select\", func() bool { return %s }); ", strings.Join(conds, " || ")))
 				}
@@ -437,6 +450,18 @@ func instrumentFile(path string, r PkgRules, sites map[string]int) ([]byte, erro
 				timeName = im.Name.Name
 			}
 		}
+	}
+	if r.Timers && timeName != "" && timeName != "_" && timeName != "." {
+		ast.Inspect(af, func(n ast.Node) bool {
+			if se, ok := n.(*ast.SelectorExpr); ok {
+				if id, ok := se.X.(*ast.Ident); ok && id.Name == timeName && id.Obj == nil && se.Sel.Name == "NewTimer" {
+					f.replace(id.Pos(), id.End(), "vtime")
+					sites["R2b.NewTimer"]++
+					f.need["vtime"] = true
+				}
+			}
+			return true
+		})
 	}
 	if r.Time && timeName != "" && timeName != "_" && timeName != "." {
 		ast.Inspect(af, func(n ast.Node) bool {
